@@ -470,6 +470,15 @@ def obv(c, v):
     return out
 
 
+def obv_stored(c, v, r=4):
+    """OBV as the library can store it: every running total is rounded to r decimals before the next volume is
+    added; totals of volumes that sit on the r-decimal grid stay exact (error 0)"""
+    out = [B.of(v[0]).store(r)] if c else []
+    for i in range(1, len(c)):
+        out.append((out[-1] + v[i]).store(r) if c[i] > c[i - 1] else (out[-1] - v[i]).store(r) if c[i] < c[i - 1] else out[-1])
+    return out
+
+
 def vwap(h, l, c, v, r=4):
     pv, vv, out = B(0.0), 0.0, []
     for i in range(len(c)):
